@@ -283,7 +283,17 @@ pub async fn scenario(w: World, h: Hist, trace: bool) -> Outcome {
                         if equals.len() == 1 {
                             let v = equals[0];
                             let pair = (wi.min(v), wi.max(v));
-                            let winner = if visible { wi } else { v };
+                            // only positive evidence counts: a presented sample shows that its writer
+                            // beats the other writer of equal strength that is known for the instance
+                            if !visible {
+                                l.writers.insert(wi, (now, slept));
+                                l.last_op.insert(wi, "write");
+                                if !wreg[wi].contains(&key) {
+                                    wreg[wi].push(key);
+                                }
+                                continue;
+                            }
+                            let winner = wi;
                             out.stat("tie_observations", 1);
                             match tie.get(&pair) {
                                 None => {
@@ -294,10 +304,9 @@ pub async fn scenario(w: World, h: Hist, trace: bool) -> Outcome {
                                     out.findings.push(Found {
                                         sig: format!("tie_inconsistent|scope={scope}"),
                                         what: format!(
-                                            "writers w{} and w{} have equal strength {sw}: on instance k{k0} w{w0} won the tie earlier, now on k{key} w{winner} wins (sample w{wi}#{seq} {})",
+                                            "writers w{} and w{} have equal strength {sw} and both are known writers of the instance: on instance k{k0} a sample of w{w0} was presented while the other was a known writer (w{w0} wins the tie), now on k{key} sample w{wi}#{seq} of w{winner} is presented",
                                             pair.0,
-                                            pair.1,
-                                            if visible { "presented" } else { "not presented" }
+                                            pair.1
                                         ),
                                         op_index: oi,
                                     });
